@@ -5,20 +5,24 @@ from sexpr import hexs
 from odata_query import ast, exceptions as ex
 from odata_query.grammar import ODataLexer, ODataParser
 
-PROP_MODS = ["ODataVerif.Tie.ExceptionTree", "ODataVerif.Tie.ParserTables", "ODataVerif.Props.C10", "ODataVerif.Props.C10Total"]
+PROP_MODS = ["ODataVerif.Tie.ExceptionTree", "ODataVerif.Tie.ParserTables", "ODataVerif.Props.C10", "ODataVerif.Props.C10Total", "ODataVerif.Props.C10Image"]
 PER_CASE_TIMEOUT = 20.0
 ALLOWED = ("ok ", "lib TokenizingException", "lib ParsingException", "lib UnknownFunctionException", "lib ArgumentCountException")
 
 class _Timeout(BaseException):
     pass
 
+_TIMEOUTS = [0]
+
 def _alarm(signum, frame):
     raise _Timeout()
 
 def guarded_parse(text, lx=None, ps=None, tree=True):
     """real outcome with a wall-clock budget: CPython's re checks for signals while matching"""
+    # after a few cases have exhausted the full budget the run is already a violation: later cases get a short budget
+    budget = PER_CASE_TIMEOUT if _TIMEOUTS[0] < 3 else 1.5
     old = signal.signal(signal.SIGALRM, _alarm)
-    signal.setitimer(signal.ITIMER_REAL, PER_CASE_TIMEOUT)
+    signal.setitimer(signal.ITIMER_REAL, budget)
     try:
         if tree:
             return impl.real_parse(text, lx, ps)
@@ -29,7 +33,8 @@ def guarded_parse(text, lx=None, ps=None, tree=True):
             return impl.canon_exc(e).split(" ")[0] + " " + impl.canon_exc(e).split(" ")[1] if impl.canon_exc(e).startswith("lib") else impl.canon_exc(e)
         return "ok" if isinstance(r, ast._Node) else "nonnode " + type(r).__name__
     except _Timeout:
-        return f"timeout>{PER_CASE_TIMEOUT}s"
+        _TIMEOUTS[0] += 1
+        return f"timeout>{budget}s"
     except RecursionError:
         return "foreign RecursionError"
     finally:
